@@ -10,7 +10,6 @@ the distribution of xxhash, not about all keys: it is *tested* by the harness (s
 not proved.
 -/
 import SemaModel.C13.Lemmas
-import SemaModel.C13.Pins
 namespace Sema.C13
 open Sema List
 
